@@ -164,8 +164,9 @@ def flavour_records(tier, rng, wd):
         ver = rng.choice(gwcheck.ALL_VERS)
         gen = gwgen.Gen(rng, ver, {"garbage": 2, "invalid": 3, "wake": 14, "req": 14, "idreq": 6, "config": 6})
         steps = []
-        for _ in range(rng.randint(8, 30)):
-            if rng.random() < 0.12:
+        burst = i % 12 == 5           # a long stream delivered while the poll thread is stalled (everything queued, pumped at the end)
+        for _ in range(rng.randint(8, 30) if not burst else rng.randint(150, 400)):
+            if rng.random() < 0.12 and not burst:
                 t = gen.t()
                 steps.append(("set", gen.n(), gen.c(), t, gen.val(t)))
             else:
@@ -188,7 +189,7 @@ def flavour_records(tier, rng, wd):
                 if mode == "ref":
                     while drv.gw.tasks.queue:
                         out += drv.pump()["out"]
-                elif mode == "sched":
+                elif mode == "sched" and not burst:
                     while drv.gw.tasks.queue and sched_rng.random() < 0.5:
                         out += _pump_tracking(drv, handler_jobs)
             while mode != "async" and drv.gw.tasks.queue:
